@@ -219,8 +219,10 @@ def r10_4(ctx):
            'for _ in range(len(joined)): self._putlock.release()')
     je = m.func('pool:Pool._join_exited_workers')
     c2 = je.cfg
-    cl = [dn for (dn, t, v) in q.assigns(je, lambda t: t.startswith('cleaned['))]
-    ex = [dn for (dn, t, v) in q.assigns(je, lambda t: t.startswith('exitcodes['))]
+    from .poolfacts import ReaperAnchors
+    RA = ReaperAnchors(ctx)
+    cl = [dn for (dn, t, v) in q.assigns(je, lambda t: t.startswith(RA.cleaned + '['))]
+    ex = [dn for (dn, t, v) in q.assigns(je, lambda t: t.startswith(RA.exitcodes + '['))]
     dl = [n for n in c2.where(lambda n: n.kind == 'stmt' and isinstance(n.ast, ast.Delete)
                               and any(ast.unparse(t).startswith('self._pool[') for t in n.ast.targets))]
     ok = bool(cl) and bool(ex) and bool(dl)
@@ -238,9 +240,9 @@ def r10_4(ctx):
     ok = bool(rets)
     for n in rets:
         v = ast.unparse(n.ast.value) if n.ast.value is not None else 'None'
-        if v.replace(' ', '') in ('list(exitcodes.values())', '[*exitcodes.values()]'):
+        if v.replace(' ', '') in ('list(%s.values())' % RA.exitcodes, '[*%s.values()]' % RA.exitcodes):
             continue
-        if v == '[]' and q.has_guard(je, n, 'cleaned', False):
+        if v == '[]' and q.has_guard(je, n, RA.cleaned, False):
             continue
         ok = False
     ctx.ob('R10.4', 'reaper:returns-every-recorded-status', ok, je, rets[0] if rets else None,
